@@ -313,11 +313,81 @@ theorem restAbsent_append {c : Comb} {ex : List Field} (hex : ∀ f ∈ ex, safe
     refine ⟨h.1, restAbsent_append hex fs (e.after f none) (i + 1) hrest ?_ h.2⟩
     exact Inv_step hex hf hinv none (by intro _ _; simp [bitsWithin])
 
+/-- no `Type` binding of the environment mentions `%T` / the constructor `cn`. -/
+def envClean (T cn : String) (e : Env) : Prop := ∀ p ∈ e.tys, bareUse T cn p.2 = false
+
+theorem lookup_mem {α : Type} : ∀ {l : List (String × α)} {k : String} {v : α}, l.lookup k = some v → (∃ k', (k', v) ∈ l)
+  | [], _, _, h => by simp [List.lookup] at h
+  | (k0, v0) :: l, k, v, h => by
+    simp only [List.lookup_cons] at h
+    split at h
+    · simp only [Option.some.injEq] at h; subst h; exact ⟨k0, List.mem_cons_self⟩
+    · obtain ⟨k', hk⟩ := lookup_mem h
+      exact ⟨k', List.mem_cons_of_mem _ hk⟩
+
+mutual
+  theorem bareUse_substRef (T cn : String) (e : Env) (he : envClean T cn e) : ∀ t : TypeRef,
+      bareUse T cn t = false → bareUse T cn (substRef e t) = false
+    | .mk n b args, h => by
+      simp only [substRef]
+      cases hl : e.tys.lookup n with
+      | some t' =>
+        obtain ⟨k', hk⟩ := lookup_mem hl
+        exact he (k', t') hk
+      | none =>
+        simp only [bareUse, Bool.or_eq_false_iff] at h ⊢
+        exact ⟨h.1, bareUseArgs_substArgs T cn e he args h.2⟩
+  theorem bareUseArgs_substArgs (T cn : String) (e : Env) (he : envClean T cn e) : ∀ a : Args,
+      bareUseArgs T cn a = false → bareUseArgs T cn (substArgs e a) = false
+    | .nil, _ => by simp [substArgs, bareUseArgs]
+    | .arith n r, h => by
+      simp only [substArgs, bareUseArgs] at h ⊢
+      exact bareUseArgs_substArgs T cn e he r h
+    | .ty t r, h => by
+      simp only [bareUseArgs, Bool.or_eq_false_iff] at h
+      simp only [substArgs]
+      cases e.nats.lookup t.name with
+      | some v => simp only [bareUseArgs]; exact bareUseArgs_substArgs T cn e he r h.2
+      | none =>
+        simp only [bareUseArgs, Bool.or_eq_false_iff]
+        exact ⟨bareUse_substRef T cn e he t h.1, bareUseArgs_substArgs T cn e he r h.2⟩
+end
+
+theorem envClean_bindTargs (T cn : String) : ∀ (targs : List TArg) (args : Args) (e e' : Env),
+    bindTargs targs args e = some e' → bareUseArgs T cn args = false → envClean T cn e → envClean T cn e'
+  | [], .nil, e, e', h, _, he => by simp [bindTargs] at h; subst h; exact he
+  | a :: as, .arith v r, e, e', h, hc, he => by
+    simp only [bindTargs] at h
+    split at h
+    · exact envClean_bindTargs T cn as r _ e' h (by simpa [bareUseArgs] using hc) (by intro p hp; exact he p hp)
+    · simp at h
+  | a :: as, .ty t r, e, e', h, hc, he => by
+    simp only [bindTargs] at h
+    simp only [bareUseArgs, Bool.or_eq_false_iff] at hc
+    split at h
+    · simp at h
+    · refine envClean_bindTargs T cn as r _ e' h hc.2 ?_
+      intro p hp
+      rcases List.mem_cons.mp hp with rfl | hp'
+      · exact hc.1
+      · exact he p hp'
+  | [], .arith _ _, _, _, h, _, _ => by simp [bindTargs] at h
+  | [], .ty _ _, _, _, h, _, _ => by simp [bindTargs] at h
+  | _ :: _, .nil, _, _, h, _, _ => by simp [bindTargs] at h
+
+theorem envClean_after (T cn : String) (e : Env) (f : Field) (v : Option Nat) (h : envClean T cn e) :
+    envClean T cn (e.after f v) := by
+  unfold Env.after
+  split <;> exact h
+
+theorem envClean_empty (T cn : String) : envClean T cn Env.empty := by
+  intro p hp; simp [Env.empty] at hp
+
 structure WC (old new : Schema) : Prop where
   dnew : allDistinct new
   cons : ∀ c ∈ old.filter isTypeComb, ∃ c' ex, findLast (fun d => d.name == c.name) (typeCombs new c.tyName) = some c' ∧ Corr c c' ex
   noShadow : ∀ T ∈ typeOrder old, findCons new T = none
-  single : ∀ T c, typeCombs old T = [c] → (typeCombs new T).length ≤ 1
+  single : ∀ T c, typeCombs old T = [c] → (typeCombs new T).length ≤ 1 ∨ usedBareSomewhere old c = false
   funcs : ∀ f ∈ funcCombs old, ∃ f' ex, findFunc new f.name = some f' ∧ Corr f f' ex
 
 theorem wc_of_wireCompat {old new : Schema} (h : wireCompat old new = true) : WC old new := by
@@ -339,7 +409,8 @@ theorem wc_of_wireCompat {old new : Schema} (h : wireCompat old new = true) : WC
   · intro T c heq
     have hT : T ∈ typeOrder old := mem_typeOrder_of_mem_typeCombs (c := c) (by simp [heq])
     have := (ht T hT).2
-    simpa [heq] using this
+    simp only [heq, Bool.or_eq_true, decide_eq_true_eq, Bool.not_eq_true'] at this
+    exact this
   · intro f hfm
     have := hf f hfm
     cases hl : findFunc new f.name with
@@ -351,8 +422,9 @@ theorem wc_of_wireCompat {old new : Schema} (h : wireCompat old new = true) : WC
 
 theorem pickComb_sim {old new : Schema} (hw : WC old new) {n cn : String} {c : Comb} {p : Pick}
     (h : pickComb old n cn = some (c, p)) :
-    ∃ c' ex p', pickComb new n cn = some (c', p') ∧ Corr c c' ex ∧
-      ∀ b body r, wrapBody p b c body = some r → wrapBody p' b c' body = some r := by
+    ∃ c' ex p', pickComb new n cn = some (c', p') ∧ Corr c c' ex ∧ c ∈ old ∧
+      ∀ b body r, (b = true → ∀ x, typeCombs old n = [x] → (typeCombs new n).length ≤ 1) →
+        wrapBody p b c body = some r → wrapBody p' b c' body = some r := by
   unfold pickComb at h
   cases hfc : findCons old n with
   | some c0 =>
@@ -370,10 +442,10 @@ theorem pickComb_sim {old new : Schema} (hw : WC old new) {n cn : String} {c : C
         have := findLast_of_nodup (key := fun d : Comb => d.name) hw.dnew.cons hm
         have hnm : c'.name = n := by rw [hcorr.1]; simpa using hmem.2
         simpa [hnm] using this
-      refine ⟨c', ex, .byCons, ?_, hcorr, ?_⟩
+      refine ⟨c', ex, .byCons, ?_, hcorr, (List.mem_filter.mp hmem.1).1, ?_⟩
       · unfold pickComb
         simp only [hfn, hcorr.1, hn, if_true]
-      · intro b body r hr; simpa [wrapBody] using hr
+      · intro b body r _ hr; simpa [wrapBody] using hr
     · simp [hn] at h
   | none =>
     simp only [hfc, Option.map_eq_some_iff, Prod.mk.injEq] at h
@@ -384,10 +456,10 @@ theorem pickComb_sim {old new : Schema} (hw : WC old new) {n cn : String} {c : C
     obtain ⟨c', ex, hl', hcorr⟩ := hw.cons c0 (List.mem_filter.mpr ⟨hm.1, hm.2.1⟩)
     rw [hm.2.2] at hl'
     have hcn : c0.name = cn := by simpa using hmem.2
-    refine ⟨c', ex, .byType (typeCombs new n).length, ?_, hcorr, ?_⟩
+    refine ⟨c', ex, .byType (typeCombs new n).length, ?_, hcorr, hm.1, ?_⟩
     · unfold pickComb
       simp only [hw.noShadow n hT, ← hcn, hl', Option.map_some]
-    · intro b body r hr
+    · intro b body r hsingle hr
       unfold wrapBody at hr ⊢
       simp only at hr ⊢
       by_cases hb : b = true
@@ -395,7 +467,7 @@ theorem pickComb_sim {old new : Schema} (hw : WC old new) {n cn : String} {c : C
         by_cases h1 : ((typeCombs old n).length == 1) = true
         · have hlen : (typeCombs old n).length = 1 := by simpa using h1
           obtain ⟨x, hx⟩ := List.length_eq_one_iff.mp hlen
-          have hle := hw.single n x hx
+          have hle := hsingle hb x hx
           have hpos : 0 < (typeCombs new n).length := List.length_pos_of_mem (findLast_some hl').1
           have : ((typeCombs new n).length == 1) = true := by simp; omega
           simpa [h1, this] using hr
@@ -411,10 +483,42 @@ theorem side_of_strictOk {c : Comb} {i : Nat} {f : Field} {k : Nat} (h : strictO
   intro h1 h2
   simpa [strictOk, h1, h2] using h
 
+/-- `(T, cn)`: a type with the single old constructor `cn` that has several constructors in the new schema. -/
+def Bad (old new : Schema) (T cn : String) : Prop :=
+  ∃ c, typeCombs old T = [c] ∧ c.name = cn ∧ (typeCombs new T).length > 1
+
+/-- the reference never uses, bare, a type that became a union (`%T` or its constructor name). -/
+def Clean (old new : Schema) (t : TypeRef) : Prop := ∀ T cn, Bad old new T cn → bareUse T cn t = false
+
+def EnvCleanAll (old new : Schema) (e : Env) : Prop := ∀ T cn, Bad old new T cn → envClean T cn e
+
+theorem fields_clean {old new : Schema} (hw : WC old new) {d : Comb} (hd : d ∈ old) {T cn : String} (hb : Bad old new T cn) :
+    bareUse T cn d.result = false ∧ ∀ f ∈ d.fields, bareUse T cn f.ty = false ∧
+      (∀ sc el, f.rep = some (sc, el) → bareUse T cn el = false) := by
+  obtain ⟨c, hone, hname, hlen⟩ := hb
+  have hTy : c.tyName = T := (mem_typeCombs.mp (show c ∈ typeCombs old T by simp [hone])).2.2
+  have hu : usedBareSomewhere old c = false := by
+    rcases hw.single T c hone with h | h
+    · omega
+    · exact h
+  unfold usedBareSomewhere at hu
+  have h1 := (List.any_eq_false.mp hu) d hd
+  rw [Bool.not_eq_true, Bool.or_eq_false_iff, hTy, hname] at h1
+  refine ⟨h1.1, ?_⟩
+  intro f hf
+  have h2 := (List.any_eq_false.mp h1.2) f hf
+  rw [Bool.not_eq_true, Bool.or_eq_false_iff] at h2
+  refine ⟨h2.1, ?_⟩
+  intro sc el hrep
+  simpa [hrep] using h2.2
+
+theorem mem_of_drop {α : Type} {l : List α} {i : Nat} {x : α} {xs : List α} (h : l.drop i = x :: xs) : x ∈ l :=
+  List.mem_of_getElem? (drop_cons_inv h).1
+
 mutual
-  theorem encTy_sim {old new : Schema} (hw : WC old new) : ∀ (v : Val) (t : TypeRef) (bs : Bytes),
+  theorem encTy_sim {old new : Schema} (hw : WC old new) : ∀ (v : Val) (t : TypeRef) (bs : Bytes), Clean old new t →
       encTy old true t v = some bs → encTy new false t v = some bs
-    | v, .mk n b args, bs, h => by
+    | v, .mk n b args, bs, hcl, h => by
       unfold encTy at h ⊢
       cases hp : primEnc n v with
       | some r => simpa [hp] using h
@@ -428,7 +532,7 @@ mutual
           | some cp =>
             obtain ⟨c, p⟩ := cp
             simp only [hpk] at h
-            obtain ⟨c', ex, p', hpk', hcorr, hwrap⟩ := pickComb_sim hw hpk
+            obtain ⟨c', ex, p', hpk', hcorr, hcold, hwrap⟩ := pickComb_sim hw hpk
             simp only [hpk', hcorr.2.2.1]
             cases hbt : bindTargs c.targs args Env.empty with
             | none => simp [hbt] at h
@@ -439,17 +543,29 @@ mutual
               | some body =>
                 simp only [hfo, Option.bind_some] at h
                 have hinv0 : Inv c ex e 0 := by intro _ _ _ _ _ _ hlt; omega
-                have := encFields_sim hw fs c c' ex hcorr e 0 c.fields body (by simp) hinv0 hfo
+                have henv : EnvCleanAll old new e := by
+                  intro T cn' hb
+                  have := hcl T cn' hb
+                  simp only [bareUse, Bool.or_eq_false_iff] at this
+                  exact envClean_bindTargs T cn' c.targs args Env.empty e hbt this.2 (envClean_empty T cn')
+                have := encFields_sim hw fs c c' ex hcorr hcold e 0 c.fields body (by simp) hinv0 henv hfo
                 rw [hcorr.2.2.2.1, this, Option.bind_some]
-                exact hwrap b body bs h
+                refine hwrap b body bs ?_ h
+                intro hb x hx
+                rcases Nat.lt_or_ge 1 (typeCombs new n).length with hgt | hle
+                · exfalso
+                  have := hcl n x.name ⟨x, hx, rfl, hgt⟩
+                  simp [bareUse, hb] at this
+                · exact hle
         | .nat _, h => simp at h
         | .prim _, h => simp at h
         | .arr _, h => simp at h
         | .absent, h => simp at h
   theorem encFields_sim {old new : Schema} (hw : WC old new) : ∀ (vs : VList) (c c' : Comb) (ex : List Field), Corr c c' ex →
-      ∀ (e : Env) (i : Nat) (fs : List Field) (bs : Bytes), c.fields.drop i = fs → Inv c ex e i →
+      c ∈ old → ∀ (e : Env) (i : Nat) (fs : List Field) (bs : Bytes), c.fields.drop i = fs → Inv c ex e i →
+      EnvCleanAll old new e →
       encFields old true c e i fs vs = some bs → encFields new false c' e i (fs ++ ex) vs = some bs
-    | .nil, c, c', ex, hcorr, e, i, [], bs, hd, hinv, h => by
+    | .nil, c, c', ex, hcorr, hcold, e, i, [], bs, hd, hinv, henv, h => by
       simp only [encFields, Option.some.injEq] at h
       subst h
       cases hx : ex with
@@ -459,7 +575,7 @@ mutual
         rw [hx] at this
         simp only [List.nil_append] at this ⊢
         simp [encFields, this]
-    | .nil, c, c', ex, hcorr, e, i, f :: fs, bs, hd, hinv, h => by
+    | .nil, c, c', ex, hcorr, hcold, e, i, f :: fs, bs, hd, hinv, henv, h => by
       simp only [encFields] at h
       split at h
       · rename_i hr
@@ -468,10 +584,11 @@ mutual
         simp only [List.cons_append] at this ⊢
         simp [encFields, this]
       · simp at h
-    | .cons v rest, c, c', ex, hcorr, e, i, [], bs, hd, hinv, h => by
+    | .cons v rest, c, c', ex, hcorr, hcold, e, i, [], bs, hd, hinv, henv, h => by
       simp [encFields] at h
-    | .cons v rest, c, c', ex, hcorr, e, i, f :: fs, bs, hd, hinv, h => by
+    | .cons v rest, c, c', ex, hcorr, hcold, e, i, f :: fs, bs, hd, hinv, henv, h => by
       obtain ⟨hf, hrest⟩ := drop_cons_inv hd
+      have hfmem : f ∈ c.fields := mem_of_drop hd
       rw [encFields] at h
       rw [List.cons_append, encFields]
       cases hp : present e f with
@@ -480,8 +597,9 @@ mutual
         cases pr with
         | false =>
           simp only [hp] at h ⊢
-          exact encFields_sim hw rest c c' ex hcorr _ (i + 1) fs bs hrest
-            (Inv_step hcorr.2.2.2.2 hf hinv none (by intro _ _; simp [bitsWithin])) h
+          exact encFields_sim hw rest c c' ex hcorr hcold _ (i + 1) fs bs hrest
+            (Inv_step hcorr.2.2.2.2 hf hinv none (by intro _ _; simp [bitsWithin]))
+            (fun T cn hb => envClean_after T cn e f none (henv T cn hb)) h
         | true =>
           simp only [hp] at h ⊢
           cases hrep : f.rep with
@@ -499,9 +617,12 @@ mutual
                 | some b1 =>
                   simp only [hel, Option.map_eq_some_iff] at h
                   obtain ⟨r, hr, rfl⟩ := h
-                  have h1 := encElems_sim hw elems (substRef e el) cnt b1 hel
-                  have h2 := encFields_sim hw rest c c' ex hcorr _ (i + 1) fs r hrest
-                    (Inv_step hcorr.2.2.2.2 hf hinv none (by intro _ _; simp [bitsWithin])) hr
+                  have hclel : Clean old new (substRef e el) := fun T cn hb =>
+                    bareUse_substRef T cn e (henv T cn hb) el (((fields_clean hw hcold hb).2 f hfmem).2 sc el hrep)
+                  have h1 := encElems_sim hw elems (substRef e el) cnt b1 hclel hel
+                  have h2 := encFields_sim hw rest c c' ex hcorr hcold _ (i + 1) fs r hrest
+                    (Inv_step hcorr.2.2.2.2 hf hinv none (by intro _ _; simp [bitsWithin]))
+                    (fun T cn hb => envClean_after T cn e f none (henv T cn hb)) hr
                   simp [h1, h2]
               | .nat _, h => simp [hcnt] at h
               | .prim _, h => simp [hcnt] at h
@@ -513,28 +634,31 @@ mutual
             | none => simp [hty] at h
             | some b1 =>
               simp only [hty] at h
-              have h1 := encTy_sim hw v (substRef e f.ty) b1 hty
+              have hclty : Clean old new (substRef e f.ty) := fun T cn hb =>
+                bareUse_substRef T cn e (henv T cn hb) f.ty ((fields_clean hw hcold hb).2 f hfmem).1
+              have h1 := encTy_sim hw v (substRef e f.ty) b1 hclty hty
               simp only [h1, strictOk_false, if_true]
               by_cases hs : strictOk true c i f ((natOf v).getD 0) = true
               · simp only [hs, if_true, Option.map_eq_some_iff] at h
                 obtain ⟨r, hr, rfl⟩ := h
-                have h2 := encFields_sim hw rest c c' ex hcorr _ (i + 1) fs r hrest
-                  (Inv_step hcorr.2.2.2.2 hf hinv (natOf v) (side_of_strictOk hs)) hr
+                have h2 := encFields_sim hw rest c c' ex hcorr hcold _ (i + 1) fs r hrest
+                  (Inv_step hcorr.2.2.2.2 hf hinv (natOf v) (side_of_strictOk hs))
+                  (fun T cn hb => envClean_after T cn e f (natOf v) (henv T cn hb)) hr
                 simp [h2]
               · simp [hs] at h
   theorem encElems_sim {old new : Schema} (hw : WC old new) : ∀ (vs : VList) (t : TypeRef) (cnt : Nat) (bs : Bytes),
-      encElems old true t cnt vs = some bs → encElems new false t cnt vs = some bs
-    | .nil, t, 0, bs, h => by simpa [encElems] using h
-    | .nil, t, _ + 1, bs, h => by simp [encElems] at h
-    | .cons _ _, t, 0, bs, h => by simp [encElems] at h
-    | .cons v rest, t, k + 1, bs, h => by
+      Clean old new t → encElems old true t cnt vs = some bs → encElems new false t cnt vs = some bs
+    | .nil, t, 0, bs, _, h => by simpa [encElems] using h
+    | .nil, t, _ + 1, bs, _, h => by simp [encElems] at h
+    | .cons _ _, t, 0, bs, _, h => by simp [encElems] at h
+    | .cons v rest, t, k + 1, bs, hcl, h => by
       simp only [encElems] at h ⊢
       cases hty : encTy old true t v with
       | none => simp [hty] at h
       | some b1 =>
         simp only [hty, Option.map_eq_some_iff] at h
         obtain ⟨r, hr, rfl⟩ := h
-        simp [encTy_sim hw v t b1 hty, encElems_sim hw rest t k r hr]
+        simp [encTy_sim hw v t b1 hcl hty, encElems_sim hw rest t k r hcl hr]
 end
 
 end TLVerif.Lint
